@@ -289,7 +289,12 @@ func (b *cliBins) exec(c *cliCfg, dir string) cliObs {
 		bin = b.top
 	}
 	if p := c.outPath(dir); c.OKind == "file" {
+		// the -o file already exists and holds something longer than any output: "-o writes those
+		// same bytes to the file" must hold for an existing file too (it is replaced, not overlaid)
 		os.Remove(p)
+		if atomic.LoadInt64(&b.runs)%2 == 0 {
+			os.WriteFile(p, []byte(cliStale), 0644)
+		}
 	}
 	ctx, cancel := context.WithTimeout(context.Background(), 30*time.Second)
 	defer cancel()
@@ -318,13 +323,16 @@ func (b *cliBins) exec(c *cliCfg, dir string) cliObs {
 		}
 	}
 	if c.OKind == "file" || c.OKind == "nodir" {
-		if bs, err := os.ReadFile(c.outPath(dir)); err == nil {
+		if bs, err := os.ReadFile(c.outPath(dir)); err == nil && string(bs) != cliStale {
+			// (a file still holding exactly the stale content was not written)
 			s := string(bs)
 			o.Outfile = &s
 		}
 	}
 	return o
 }
+
+var cliStale = strings.Repeat("stale content of an earlier run\n", 2048)
 
 var cliStampRe = regexp.MustCompile(`^\d{4}/\d{2}/\d{2} \d{2}:\d{2}:\d{2} `)
 
